@@ -42,7 +42,7 @@ def clang_ast(src, fn, incl, std="gnu++11", shim=None):
     return docs
 
 
-def find_def(docs, name, cls=None):
+def find_def(docs, name, cls=None, sig=None):
     """FunctionDecl / CXXMethodDecl named `name` that has a body."""
     found = []
     def walk(n, parents):
@@ -54,6 +54,9 @@ def find_def(docs, name, cls=None):
     for d in docs: walk(d, [])
     if not found:
         raise Unsupported("no definition of %s found" % name)
+    if sig is not None:
+        found = [n for n in found if sig in n.get("type", {}).get("qualType", "")]
+        if not found: raise Unsupported("no definition of %s with %r in its signature" % (name, sig))
     inst = [n for n in found if any(c.get("kind") == "TemplateArgument" for c in n.get("inner", []))]
     if inst: return inst[0]            # explicit instantiation of a template (typed), not the dependent pattern
     return found[0]
@@ -90,6 +93,42 @@ class FnTrans:
             self.params.append((p["name"], self.fresh(p["name"]), lt, kind))
             dflt = [c for c in p.get("inner", []) if "Literal" in c.get("kind", "") or c.get("kind", "").endswith("Expr") or c.get("kind") == "UnaryOperator"]
             self.defaults.append(dflt[0] if dflt else None)
+        self.frag_stmt = None
+        fr_ = job.get("fragment", {}).get(decl["name"])
+        if fr_ is not None:
+            # translate ONE statement of the function (e.g. an inner loop) as a function of its free variables
+            def find_all(n, kind, acc):
+                if n.get("kind") == kind: acc.append(n)
+                for c in n.get("inner", []):
+                    if isinstance(c, dict): find_all(c, kind, acc)
+                return acc
+            scope = body_[0]
+            if fr_.get("within"):
+                outer = find_all(scope, fr_["within"], [])
+                if not outer: raise Unsupported("%s: no %s in the function" % (self.name, fr_["within"]))
+                scope = outer[0]
+                cands = [x for c in scope.get("inner", []) if isinstance(c, dict) for x in find_all(c, fr_["kind"], [])]
+            else:
+                cands = find_all(scope, fr_["kind"], [])
+            if len(cands) <= fr_.get("nth", 0): raise Unsupported("%s: fragment %r not found" % (self.name, fr_))
+            st_ = cands[fr_.get("nth", 0)]
+            self.frag_stmt = st_
+            inside = {d_["name"] for d_ in find_all(st_, "VarDecl", [])}
+            assigned_f = self.assigned_vars(st_, set())
+            free = (self.vars_read(st_) | assigned_f) - inside
+            newp, newd = [], []
+            for (pc, pl, pt, pk), df in zip(self.params, self.defaults):
+                if pc in free:
+                    newp.append((pc, pl, pt, "state" if (pc in assigned_f and pk != "out") else pk)); newd.append(df)
+            have = {p_[0] for p_ in newp}
+            for d_ in find_all(body_[0], "VarDecl", []):
+                if d_["name"] in free and d_["name"] not in have:
+                    lt_, _k = self.lean_type(d_["type"]["qualType"], param=True)
+                    newp.append((d_["name"], self.fresh(d_["name"]), lt_, "state" if d_["name"] in assigned_f else "val")); newd.append(None)
+                    have.add(d_["name"])
+            missing = free - have
+            if missing: raise Unsupported("%s: free variables %s of the fragment have no declaration" % (self.name, sorted(missing)))
+            self.params, self.defaults = newp, newd
         self.state = list(job.get("state_members", {}).get(self.name, []))   # [(member, lean name, lean type)] read AND written
         for (mn, ln, lt) in self.state:
             self.counter[mn] = max(self.counter.get(mn, 0), 1)      # later assignments get fresh names (no shadowing)
@@ -106,7 +145,7 @@ class FnTrans:
             self.defaults.append(None)
             self.counter[self.tstruct[0]] = 1
         self.ret_qt = decl["type"]["qualType"].split("(")[0].strip()
-        self.ret_type = None if self.ret_qt == "void" else self.lean_type(self.ret_qt)[0]
+        self.ret_type = None if (self.ret_qt == "void" or self.frag_stmt is not None) else self.lean_type(self.ret_qt)[0]
         self.outs = [p for p in self.params if p[3] in ("out", "state")]
 
     # ---- types
@@ -117,6 +156,8 @@ class FnTrans:
         qts = self.job.get("qual_types", {})       # exact C++ type (const / namespaces stripped) -> (lean type, val|state)
         if q in qts:
             return qts[q][0], (qts[q][1] if param else "val")
+        if q.endswith("*") and q[:-1].strip().replace("shortest_paths::", "") in self.job.get("ptr_index", {}):
+            return "Nat", "val"           # a pointer into an array the job names: the element's index
         if q.endswith("*"):
             q = q[:-1].strip(); kind = "out"
             if q in self.job.get("ptr_vals", []): kind = "val"     # pointer to an object read only through job["paths"]
@@ -235,6 +276,13 @@ class FnTrans:
         if want.startswith("Option ") and want[7:] == ty: return "(some %s)" % t, want, p
         raise Unsupported("%s: %s where %s is expected" % (self.name, ty, want))
 
+    def ptr_array(self, node):
+        """name of the array variable that pointers of this expression's C type index (job["ptr_index"]), or None"""
+        qt = node.get("type", {}).get("qualType", "")
+        q = qt.replace("const ", "").replace("shortest_paths::", "").strip()
+        if not q.endswith("*"): return None
+        return self.job.get("ptr_index", {}).get(q[:-1].strip())
+
     def num(self, ty):
         """numeric class of a Lean type (job["num"][ty] = dict(lit=fmt, max=text, ops={op: fmt}))"""
         return self.job.get("num", {}).get(ty)
@@ -261,6 +309,8 @@ class FnTrans:
             b = lhs["inner"][0]
             while b.get("kind") in ("ImplicitCastExpr", "ParenExpr"): b = b["inner"][0]
             if b.get("kind") == "CXXThisExpr": return None
+            arr_ = self.ptr_array(lhs["inner"][0]) if lhs.get("isArrow") else None
+            if arr_ is not None: return arr_, [("idx", lhs["inner"][0]), ("field", lhs["name"])]
             r = self.lvalue_path(b)
             return None if r is None else (r[0], r[1] + [("field", lhs["name"])])
         return None
@@ -460,7 +510,13 @@ class FnTrans:
                 if nm in env and nm in self.job.get("member_locals", {}): return env[nm]["lean"], env[nm]["type"], None
                 if nm in self.members: return self.members[nm][0], self.members[nm][1], None
                 raise Unsupported("%s: member %s of this not mapped" % (self.name, nm))
-            t, ty, p = self.expr(base, env)
+            arr_ = self.ptr_array(base) if n.get("isArrow") else None
+            if arr_ is not None:
+                if arr_ not in env: raise Unsupported("%s: pointer into %s, which is not in scope" % (self.name, arr_))
+                it_, ity_, ip_ = self.expr(base, env)
+                t, ty, p = self.index_read(env[arr_]["lean"], env[arr_]["type"], None, it_, ity_, ip_)
+            else:
+                t, ty, p = self.expr(base, env)
             fld = n["name"]
             if ty == "List Pt" and fld == "ps":
                 return t, ty, p
@@ -530,7 +586,7 @@ class FnTrans:
             if ta == tb and self.num(ta):
                 f_ = self.num(ta)["ops"].get(op)
                 if f_ is None: raise Unsupported("%s: operator %s on %s" % (self.name, op, ta))
-                return f_ % (a, b), ("Bool" if op in ("<", ">", "<=", ">=", "==", "!=") else ta), self.conj(pa, pb)
+                return (f_.format(a, b) if "{" in f_ else f_ % (a, b)), ("Bool" if op in ("<", ">", "<=", ">=", "==", "!=") else ta), self.conj(pa, pb)
             if op in ("+", "-", "*", "/") and self.job.get("sz_to_rat") and {ta, tb} == {"Rat", "SZ"}:
                 # a signed-zero value meets a value the job declares sign-of-zero-irrelevant (Rat): the result is Rat
                 if ta == "SZ": a, ta = "(SZ.toRat %s)" % a, "Rat"
@@ -785,6 +841,18 @@ class FnTrans:
         if me.get("kind") != "MemberExpr" or me.get("name") != "push_back" or len(inner) != 2: return None
         return me["inner"][0], inner[1]
 
+    def is_state_method(self, n):
+        """(object variable, spec, argument nodes) of a statement `obj.m(args)` whose method the job declares as an uninterpreted
+        state transformer of `obj` (job["state_methods"][m] = dict(fn=…, skip_args=[…], extra_vars=[…]))"""
+        if n.get("kind") != "CXXMemberCallExpr": return None
+        inner = [c for c in n.get("inner", []) if isinstance(c, dict)]
+        me = inner[0]
+        if me.get("kind") != "MemberExpr" or me.get("name") not in self.job.get("state_methods", {}): return None
+        o = me["inner"][0]
+        while o.get("kind") in ("ImplicitCastExpr", "ParenExpr"): o = o["inner"][0]
+        if o.get("kind") != "DeclRefExpr": return None
+        return self.alias.get(o["referencedDecl"]["name"], o["referencedDecl"]["name"]), self.job["state_methods"][me["name"]], inner[1:]
+
     def assigned_vars(self, n, acc):
         k = n.get("kind")
         if k in ("BinaryOperator", "CompoundAssignOperator") and (n.get("opcode", "") == "=" or k == "CompoundAssignOperator"):
@@ -796,6 +864,8 @@ class FnTrans:
         if pb_ is not None:
             lp = self.lvalue_path(pb_[0])
             if lp: acc.add(lp[0])
+        sm_ = self.is_state_method(n)
+        if sm_ is not None: acc.add(sm_[0])
         if k == "UnaryOperator" and n.get("opcode") in ("++", "--"):
             t = n["inner"][0]
             while t.get("kind") in ("ParenExpr",): t = t["inner"][0]
@@ -1013,6 +1083,22 @@ class FnTrans:
             v, pp = nxt(env)
             head = "let %s : %s := %s\n%s" % (ln, ty, t, pad)
             return head + v, head + (("(%s) &&\n%s" % (p, pad)) if p else "") + pp
+        sm_ = self.is_state_method(s)
+        if sm_ is not None:
+            on_, spec_, args_ = sm_
+            if on_ not in env: raise Unsupported("%s: %s is not in scope" % (self.name, on_))
+            ats, pres = [], []
+            for j_, a_ in enumerate(args_):
+                if j_ in spec_.get("skip_args", []): continue
+                t_, ty_, p_ = self.expr(a_, env); ats.append(t_); pres.append(p_)
+            ats += [env[v_]["lean"] for v_ in spec_.get("extra_vars", [])]
+            env = dict(env)
+            ln = self.fresh(on_); ty = env[on_]["type"]
+            head = "let %s : %s := (%s %s %s)\n%s" % (ln, ty, spec_["fn"], env[on_]["lean"], " ".join(ats), pad)
+            env[on_] = dict(lean=ln, type=ty)
+            v, pp = nxt(env)
+            pc = self.conj(*pres)
+            return head + v, (("(%s) &&\n%s" % (pc, pad)) if pc else "") + head + pp
         pb_ = self.is_push_back(s)
         if pb_ is not None:
             # c.push_back(x) on a container modelled as a List (c = a variable, or an element / field reached from one)
@@ -1292,7 +1378,11 @@ class FnTrans:
         if iname in assigned: raise Unsupported("%s: loop index assigned in body" % self.name)
         # the bound is evaluated once: it must not depend on anything the body changes
         bvars = self.vars_read(cond["inner"][1])
-        if bvars & assigned: raise Unsupported("%s: loop bound depends on %s, assigned in the body" % (self.name, sorted(bvars & assigned)))
+        for r_ in sorted(bvars & assigned):
+            rf, wf = self.read_fields(cond["inner"][1], r_), self.write_fields(body, r_)
+            if None in rf or None in wf or (rf & wf):
+                raise Unsupported("%s: loop bound depends on %s, assigned in the body" % (self.name, r_))
+            # the bound reads fields %s of the elements, the body writes only fields %s: evaluated once
         return iname, i0, bound, self.conj(p0, pb), body, assigned
 
     def vars_read(self, n, acc=None):
@@ -1300,8 +1390,43 @@ class FnTrans:
         if n.get("kind") == "DeclRefExpr" and n.get("referencedDecl", {}).get("kind") in ("ParmVarDecl", "VarDecl"):
             acc.add(self.alias.get(n["referencedDecl"]["name"], n["referencedDecl"]["name"]))
         if n.get("kind") == "CXXThisExpr": acc.add("this")
+        if n.get("kind") == "MemberExpr" and n.get("isArrow"):
+            arr_ = self.ptr_array(n["inner"][0])
+            if arr_ is not None: acc.add(arr_)
         for c in n.get("inner", []):
             if isinstance(c, dict): self.vars_read(c, acc)
+        return acc
+
+    def read_fields(self, n, root, acc=None):
+        """fields through which `n` reads elements of the array `root` (via pointers into it); None in the set = some other read of it"""
+        acc = set() if acc is None else acc
+        if n.get("kind") == "MemberExpr" and n.get("isArrow") and self.ptr_array(n["inner"][0]) == root:
+            acc.add(n["name"])
+            self.read_fields(n["inner"][0], root, acc)
+            return acc
+        if n.get("kind") == "DeclRefExpr" and self.alias.get(n.get("referencedDecl", {}).get("name"), n.get("referencedDecl", {}).get("name")) == root:
+            acc.add(None)
+        for c in n.get("inner", []):
+            if isinstance(c, dict): self.read_fields(c, root, acc)
+        return acc
+
+    def write_fields(self, n, root, acc=None):
+        """fields of elements of `root` that `n` assigns; None in the set = a write that is not a single field of an element"""
+        acc = set() if acc is None else acc
+        k = n.get("kind")
+        tgt = None
+        if k in ("BinaryOperator", "CompoundAssignOperator") and (n.get("opcode", "") == "=" or k == "CompoundAssignOperator"): tgt = n["inner"][0]
+        pb_ = self.is_push_back(n)
+        if pb_ is not None: tgt = pb_[0]
+        if tgt is not None:
+            lp = self.lvalue_path(tgt)
+            if lp is not None and lp[0] == root:
+                fs = [a_[1] for a_ in lp[1] if a_[0] == "field"]
+                acc.add(fs[0] if (len(lp[1]) >= 2 and lp[1][0][0] == "idx" and fs) else None)
+        sm_ = self.is_state_method(n)
+        if sm_ is not None and sm_[0] == root: acc.add(None)
+        for c in n.get("inner", []):
+            if isinstance(c, dict): self.write_fields(c, root, acc)
         return acc
 
     def loop_body(self, body, benv, carried, ind):
@@ -1378,8 +1503,9 @@ class FnTrans:
         fixed = [(c, env[c]["lean"], env[c]["type"]) for c in env if c not in carried and (keep_all or c in used) and not env[c].get("iter")]
         self.nloops += 1
         hname = "%s_body%d" % (self.name, self.nloops)
-        fixed_sig = "".join("(%s : %s) " % (l, t) for _, l, t in fixed)
-        fixed_args = "".join(" " + l for _, l, t in fixed)
+        xp_ = list(self.job.get("extra_params", {}).get(self.name, []))
+        fixed_sig = "".join("(%s : %s) " % (l, t) for _, l, t in fixed) + "".join("(%s : %s) " % (l, t) for l, t in xp_)
+        fixed_args = "".join(" " + l for _, l, t in fixed) + "".join(" " + l for l, t in xp_)
         self.helpers.append(
             "def %s %s(%s : %s) (%s : %s) : %s :=\n  %s%s\n\n" % (hname, fixed_sig, xln, ety, svar, sty, sty, unpack.replace(pad2, "  "), bv.replace("\n" + pad2, "\n  ")) +
             "def %s_pre %s(%s : %s) (%s : %s) : Bool :=\n  %s%s\n\n" % (hname, fixed_sig, xln, ety, svar, sty, unpack.replace(pad2, "  "), bp.replace("\n" + pad2, "\n  ")))
@@ -1428,8 +1554,9 @@ class FnTrans:
         fixed = [(c, env[c]["lean"], env[c]["type"]) for c in env if c not in carried and (keep_all or c in used)]
         self.nloops += 1
         hname = "%s_body%d" % (self.name, self.nloops)
-        fixed_sig = "".join("(%s : %s) " % (l, t) for _, l, t in fixed)
-        fixed_args = "".join(" " + l for _, l, t in fixed)
+        xp_ = list(self.job.get("extra_params", {}).get(self.name, []))
+        fixed_sig = "".join("(%s : %s) " % (l, t) for _, l, t in fixed) + "".join("(%s : %s) " % (l, t) for l, t in xp_)
+        fixed_args = "".join(" " + l for _, l, t in fixed) + "".join(" " + l for l, t in xp_)
         self.helpers.append(
             "def %s %s(%s : Nat) (%s : %s) : %s :=\n  %s%s\n\n" % (hname, fixed_sig, iln, svar, sty, sty, unpack.replace(pad2, "  "), bv.replace("\n" + pad2, "\n  ")) +
             "def %s_pre %s(%s : Nat) (%s : %s) : Bool :=\n  %s%s\n\n" % (hname, fixed_sig, iln, svar, sty, unpack.replace(pad2, "  "), bp.replace("\n" + pad2, "\n  ")))
@@ -1566,11 +1693,15 @@ class FnTrans:
             if self.ret_type is not None:
                 raise Unsupported("%s: control reaches end of non-void function" % self.name)
             return self.ret_tuple(None, e), "true"
-        val, pre = self.block(body.get("inner", []), env, end, 1)
+        val, pre = self.block(body.get("inner", []) if self.frag_stmt is None else [self.frag_stmt], env, end, 1)
         rty = " × ".join(([self.ret_type] if self.ret_type else []) + [o[2] for o in self.outs]) or "Unit"
         out = "".join(self.helpers)
         out += "def %s %s : %s :=\n  %s%s\n\n" % (self.name, " ".join(sig), rty, pre_lets, val)
         out += "def %s_pre %s : Bool :=\n  %s%s\n\n" % (self.name, " ".join(sig), pre_lets, pre)
+        tps = self.job.get("type_params", [])
+        if tps:
+            tp_ = " ".join("{%s : Type}" % t_ for t_ in tps)
+            out = re.sub(r"(?m)^def (\S+) ", lambda m_: "def %s %s " % (m_.group(1), tp_), out)
         return out
 
 
@@ -1705,7 +1836,7 @@ def run_job_body(job, repo, known, asts=None):
             text += "def k_%s : %s := %s\n" % (nm, lt, job["constants"][nm][0])
         text += "\n"
     for fn, docs in zip(job["functions"], asts):
-        decl = find_def(docs, fn, job.get("classes", {}).get(fn))
+        decl = find_def(docs, fn, job.get("classes", {}).get(fn), job.get("sig_contains", {}).get(fn))
         ft = FnTrans(job, decl, known)
         text += ft.translate()
         known[ft.name] = ft
